@@ -822,6 +822,123 @@ func sbRecv(fd *ast.FuncDecl) string {
 	return ""
 }
 
+var (
+	reVerb      = regexp.MustCompile("%(?:\\[(\\d+)\\])?v")
+	reEqPh      = regexp.MustCompile("`(%(?:\\[\\d+\\])?v)`\\s*=\\s*$")
+	reColsValue = regexp.MustCompile("\\(((?:\\s*`%(?:\\[\\d+\\])?v`\\s*,?)+)\\)\\s*VALUES\\s*\\(((?:\\s*\\?\\s*,?)+)\\)")
+)
+
+// bindFacts: for every executed statement of the method whose placeholders are all literal `?` and as many as the bind
+// arguments, the column each placeholder belongs to and the declared type of the argument bound to it.
+func (f *sbFunc) bindFacts() []string {
+	params := map[string]string{}
+	for _, fl := range f.fd.Type.Params.List {
+		for _, n := range fl.Names {
+			params[n.Name] = f.text(fl.Type)
+		}
+	}
+	var out []string
+	idx := -1
+	ast.Inspect(f.fd.Body, func(n ast.Node) bool {
+		c, ok := n.(*ast.CallExpr)
+		if !ok {
+			return true
+		}
+		isExec, hasMapper := sbIsExec(c)
+		if !isExec {
+			return true
+		}
+		idx++
+		args := c.Args[3:]
+		if hasMapper && len(args) > 0 {
+			args = args[1:]
+		}
+		if c.Ellipsis.IsValid() {
+			return true
+		}
+		q := sbUnparen(c.Args[2])
+		if id, ok := q.(*ast.Ident); ok {
+			if d := f.lookupDef(id.Name, c.Pos()); d != nil {
+				q = sbUnparen(d.rhs)
+			}
+		}
+		var format string
+		var fargs []ast.Expr
+		if call, ok := q.(*ast.CallExpr); ok {
+			if pk, name := sbCallee(call); pk == "fmt" && name == "Sprintf" && len(call.Args) > 0 {
+				if s, ok := sbStrConst(call.Args[0]); ok {
+					format, fargs = s, call.Args[1:]
+				}
+			}
+		} else if s, ok := sbStrConst(q); ok {
+			format = s
+		}
+		if format == "" || strings.Count(format, "?") != len(args) || len(args) == 0 {
+			return true
+		}
+		// the Sprintf argument a verb at text position p stands for
+		verbArg := func(verbText string, p int) string {
+			m := reVerb.FindStringSubmatch(verbText)
+			k := -1
+			if m != nil && m[1] != "" {
+				n, _ := strconv.Atoi(m[1])
+				k = n - 1
+			} else {
+				k = len(reVerb.FindAllStringIndex(format[:p], -1))
+			}
+			if k >= 0 && k < len(fargs) {
+				return f.text(fargs[k])
+			}
+			return ""
+		}
+		// columns of the placeholders inside `(cols) VALUES (?,...)`
+		valueCols := map[int]string{} // text position of '?' -> column expression
+		for _, m := range reColsValue.FindAllStringSubmatchIndex(format, -1) {
+			colsText, colsAt := format[m[2]:m[3]], m[2]
+			var cols []string
+			for _, v := range reVerb.FindAllStringIndex(colsText, -1) {
+				cols = append(cols, verbArg(colsText[v[0]:v[1]], colsAt+v[0]))
+			}
+			k := 0
+			for p := m[4]; p < m[5]; p++ {
+				if format[p] == '?' {
+					if k < len(cols) {
+						valueCols[p] = cols[k]
+					}
+					k++
+				}
+			}
+		}
+		ph := 0
+		for p := 0; p < len(format); p++ {
+			if format[p] != '?' {
+				continue
+			}
+			col := valueCols[p]
+			if col == "" {
+				if m := reEqPh.FindStringSubmatchIndex(format[:p]); m != nil {
+					col = verbArg(format[m[2]:m[3]], m[2])
+				}
+			}
+			if col != "" {
+				a := sbUnparen(args[ph])
+				typ := "?"
+				if id, ok := a.(*ast.Ident); ok {
+					if t, ok := params[id.Name]; ok {
+						typ = t
+					} else if id.Name == "true" || id.Name == "false" {
+						typ = "bool"
+					}
+				}
+				out = append(out, fmt.Sprintf("mkBindFact %s %d%%nat %d%%nat %s %s %s", coqString(f.fd.Name.Name), idx, ph, coqString(col), coqString(f.text(args[ph])), coqString(typ)))
+			}
+			ph++
+		}
+		return true
+	})
+	return out
+}
+
 // tracerFacts: for every method of ReadTracer / WriteTracer the method it calls on the wrapped object in its return
 // statement (`return r.RD.Name(args...)` / `return w.TX.Name(args...)`) and whether the arguments are the parameters in order.
 func tracerFacts(t *T) ([]string, error) {
@@ -991,7 +1108,7 @@ func extractSqlBind(t *T) (string, error) {
 		return "", fmt.Errorf("const ChunkLimit not found (or not an integer constant) in %s", sbClientFile)
 	}
 
-	var stmts, sqls []string
+	var stmts, sqls, binds []string
 	removeFlagNoCase, removeFlagSeen := false, false
 	for _, rel := range []string{sbWriteFile, sbReadFile} {
 		af, err := t.ParseFile(rel)
@@ -1033,6 +1150,7 @@ func extractSqlBind(t *T) (string, error) {
 			}
 			stmts = append(stmts, fn.stmtFacts()...)
 			sqls = append(sqls, fn.sqlFacts()...)
+			binds = append(binds, fn.bindFacts()...)
 		}
 	}
 	if !removeFlagSeen {
@@ -1054,6 +1172,8 @@ func extractSqlBind(t *T) (string, error) {
 	list("stmt_facts", "stmt_fact", stmts)
 	sb.WriteString("\n(* one entry per query text: method, index, first word, expression at the table position *)\n")
 	list("sql_facts", "sql_fact", sqls)
+	sb.WriteString("\n(* bind order: method, statement, placeholder, column of the placeholder, bind argument, declared type of the argument *)\n")
+	list("bind_facts", "bind_fact", binds)
 	tr, err := tracerFacts(t)
 	if err != nil {
 		return "", err
